@@ -311,7 +311,15 @@ def run_sessions(cfgs, jobs=14, timeout=60):
                 p.join(5)
                 pr.close()
             elif not p.is_alive():
-                results[i] = {"error": f"child exited {p.exitcode}"}
+                # the child may have sent its result and exited between the poll above and this test
+                if pr.poll(0.5):
+                    try:
+                        results[i] = pr.recv()
+                    except EOFError:
+                        results[i] = {"error": "child died"}
+                else:
+                    results[i] = {"error": f"child exited {p.exitcode}"}
+                p.join(5)
                 pr.close()
             elif time.time() - t0 > timeout:
                 p.kill()
